@@ -136,8 +136,22 @@ def fill(claim, na):
         "term equality (noted). Trusted: name-resolution of result fields is by last textual binding.",
         "DESIGN.md section 4, C08",
     )
+    claim(
+        "C17", "other",
+        "twin-branch agreement at every Pool fan-out, total-order rule for imap_unordered fan-in, randomness inventory with a triage table, worker tuple packer/unpacker agreement",
+        "Static hazards that make results depend on scheduling or repetition: the pooled and serial arm of each of the "
+        "fan-outs map the same worker over the same arguments and treat results identically (also the unrolled arm in "
+        "TR-RBF and the iterator.next() form); num_procs flows only into Pool(), validation, arm selection and forwarding; "
+        "results collected with imap_unordered are sorted with a key that includes every discriminating scalar field of "
+        "the worker's result before a winner is taken; every draw from a global random generator reachable from "
+        "analysis/ is in a reviewed table (3 known findings: BHT rand, BHT rvs, TR-RBF randn); mock data draw only from "
+        "RandomState(seed=seed); worker tuples agree in arity and names.",
+        "Not decided: bit-identity of BLAS/LAPACK across thread counts; 'differs between seeds'. Trusted: the benign "
+        "classification of cubic.py's random start vector.",
+        "DESIGN.md section 4, C17",
+    )
     for pid in ( "C06", "C07", "C09", "C11", "C12", "C13",
-                "C17", "C18", "C19"):
+                "C18", "C19"):
         na(pid, NOT_YET)
     na("C10", "statistical behaviour of a heuristic pipeline (noise tracking, drift margin) on noisy inputs: quantifies over "
               "numerical outcomes of optimisers and random noise; no sound static argument bounds it")
